@@ -63,7 +63,11 @@ class Range:
         end = (self.next >= self.stop) if self.step >= 0 else (self.next <= self.stop)
         if end:
             return nothing()
-        return some((self.next, Range(self.next + self.step, self.stop, self.step)))
+        following = self.next + self.step
+        # If the addition wrapped around the 64-bit range, the sequence is exhausted
+        if (following < self.next) if self.step >= 0 else (following > self.next):
+            following = self.stop
+        return some((self.next, Range(following, self.stop, self.step)))
 
 
 @guppy
